@@ -504,7 +504,7 @@ impl Curve2 {
     ///
     /// ```
     pub fn between_lengths_by_control(&self, a: f64, b: f64, control: f64) -> Option<Self> {
-        if control > self.length() {
+        if control < 0.0 || control > self.length() {
             return None;
         }
 
